@@ -197,6 +197,7 @@ package kvql
 //
 //@ func (a *AggregatePlan) Batch(ctx *ExecuteCtx) (ret [][]Column, err error)
 //@   props C08
+//@   ensures[C08] ownrows: err == nil ==> isnil(ret) || fresh(ret)
 //@   ensures[C08] norows: err != nil ==> len(ret) == 0
 //@   requires aggInv(a) && PlanBatchSize >= 1
 //@   assigns a.pos, a.skips, a.current, allof(FunctionCallExpr.Result), ctx.Hit, mapof(ctx.FieldCaches)
